@@ -29,6 +29,10 @@ type meta struct {
 
 	creation int64 // used for the meta process Uptime method only
 	state    int32
+
+	// reason Start() ended with. Set before the state becomes Terminated;
+	// used by the mailbox goroutine if it has to complete the termination
+	startReason error
 }
 
 func (m *meta) ID() gen.Alias {
@@ -102,14 +106,7 @@ func (m *meta) start() {
 				pc, fn, line, _ := runtime.Caller(2)
 				m.log.Panic("meta process %s terminated - %#v at %s[%s:%d]", m.id,
 					rcv, runtime.FuncForPC(pc).Name(), fn, line)
-				old := atomic.SwapInt32(&m.state, int32(gen.MetaStateTerminated))
-				if old != int32(gen.MetaStateTerminated) {
-					m.p.node.aliases.Delete(m.id)
-					atomic.StoreInt32(&m.state, int32(gen.MetaStateTerminated))
-					reason := gen.TerminateReasonPanic
-					m.p.node.RouteTerminateAlias(m.id, reason)
-					m.behavior.Terminate(reason)
-				}
+				m.startTerminated(gen.TerminateReasonPanic)
 			}
 		}()
 	}
@@ -124,15 +121,28 @@ func (m *meta) start() {
 
 	reason := m.behavior.Start()
 	// meta process terminated
-	old := atomic.SwapInt32(&m.state, int32(gen.MetaStateTerminated))
-	if old != int32(gen.MetaStateTerminated) {
-		m.p.node.aliases.Delete(m.id)
-		if reason == nil {
-			reason = gen.TerminateReasonNormal
-		}
-		m.p.node.RouteTerminateAlias(m.id, reason)
-		m.behavior.Terminate(reason)
+	if reason == nil {
+		reason = gen.TerminateReasonNormal
 	}
+	m.startTerminated(reason)
+}
+
+// startTerminated is called when Start() has returned (or panicked)
+func (m *meta) startTerminated(reason error) {
+	m.startReason = reason
+	old := atomic.SwapInt32(&m.state, int32(gen.MetaStateTerminated))
+	switch old {
+	case int32(gen.MetaStateTerminated):
+		return
+	case int32(gen.MetaStateRunning):
+		// the mailbox goroutine is inside a callback. It completes the
+		// termination as soon as that callback returns (Terminate must
+		// not run concurrently with another callback)
+		return
+	}
+	m.p.node.aliases.Delete(m.id)
+	m.p.node.RouteTerminateAlias(m.id, reason)
+	m.behavior.Terminate(reason)
 }
 
 func (m *meta) handle() {
@@ -154,13 +164,13 @@ func (m *meta) handle() {
 					m.log.Panic("meta process %s terminated - %#v at %s[%s:%d]", m.id,
 						rcv, runtime.FuncForPC(pc).Name(), fn, line)
 
-					old := atomic.SwapInt32(&m.state, int32(gen.MetaStateTerminated))
-					if old != int32(gen.MetaStateTerminated) {
-						m.p.node.aliases.Delete(m.id)
-						reason = gen.TerminateReasonPanic
-						m.p.node.RouteTerminateAlias(m.id, reason)
-						m.behavior.Terminate(reason)
-					}
+					// while this goroutine is active it is the only one that
+					// completes a termination (see startTerminated)
+					atomic.StoreInt32(&m.state, int32(gen.MetaStateTerminated))
+					m.p.node.aliases.Delete(m.id)
+					reason = gen.TerminateReasonPanic
+					m.p.node.RouteTerminateAlias(m.id, reason)
+					m.behavior.Terminate(reason)
 				}
 			}()
 		}
@@ -244,17 +254,20 @@ func (m *meta) handle() {
 			}
 
 			// terminated
-			old := atomic.SwapInt32(&m.state, int32(gen.MetaStateTerminated))
-			if old != int32(gen.MetaStateTerminated) {
-				m.p.node.aliases.Delete(m.id)
-				m.p.node.RouteTerminateAlias(m.id, reason)
-				m.behavior.Terminate(reason)
-			}
+			atomic.StoreInt32(&m.state, int32(gen.MetaStateTerminated))
+			m.p.node.aliases.Delete(m.id)
+			m.p.node.RouteTerminateAlias(m.id, reason)
+			m.behavior.Terminate(reason)
 			return
 		}
 
 		if atomic.CompareAndSwapInt32(&m.state, int32(gen.MetaStateRunning), int32(gen.MetaStateSleep)) == false {
-			// terminated. seems the main loop is stopped. do nothing.
+			// terminated: Start() returned while this goroutine was
+			// handling a message. Complete the termination here.
+			reason = m.startReason
+			m.p.node.aliases.Delete(m.id)
+			m.p.node.RouteTerminateAlias(m.id, reason)
+			m.behavior.Terminate(reason)
 			return
 		}
 
